@@ -453,7 +453,9 @@ def slices(draw, n, steps=(None, 1, 2, 3, -1, -2, -3)):
 @st.composite
 def iloc_key(draw, n, allow_scalar=True, allow_oob=False):
     """Positional key valid for an axis of length n (NumPy semantics)."""
-    opts = ['slice', 'list', 'bool', 'null']
+    # (Hypothesis pins late draws to their minimal choice for a share of its examples: the minimal key of every
+    # kind is a non-empty selection; empty selections stay reachable through ordinary draws)
+    opts = ['list', 'slice', 'bool', 'null']
     if n > 0 and allow_scalar:
         opts.append('int')
         opts.append('int')
@@ -481,11 +483,11 @@ def iloc_key(draw, n, allow_scalar=True, allow_oob=False):
     if kind == 'list':
         if n == 0:
             return []
-        k = draw(st.lists(st.integers(-n, n - 1), max_size=n, unique_by=lambda i: i % n))
+        k = draw(st.lists(st.integers(-n, n - 1), min_size=0 if draw(st.integers(0, 7)) == 7 else 1, max_size=n, unique_by=lambda i: i % n))
         if draw(st.booleans()):
             return np.array(k, dtype=np.int64)
         return k
-    mask = draw(st.lists(st.booleans(), min_size=n, max_size=n))
+    mask = [not b for b in draw(st.lists(st.booleans(), min_size=n, max_size=n))]
     return np.array(mask, dtype=bool)
 
 
